@@ -16,8 +16,16 @@ LINE
          into a line break of the file's newline convention), i.e. the statement occupies nl+1 physical lines}
    a definition may carry "unload": KIND - its file cannot be loaded as text at all (bytes that are not UTF-8: a Latin-1 letter, a lone
    continuation byte, a truncated sequence, an overlong form, an encoded surrogate, UTF-16 with BOM; or a directory under the definition's file name); its lines are what the file would have held
+   a definition may carry "badfile": {"root": "ns"|"lib", "rel": path below that root, "why": kind} - a file whose NAME is malformed
+   (version or port-ID that is no decimal numeral, wrong number of dot-separated components, a namespace directory with a dot), in
+   the namespace that is read or in a second root namespace `lib` that is only passed as a lookup directory; such a file is a fault
+   wherever it lies: both entry points meet it when the directories are scanned, before any definition is read
 DECO
-  {"seed": int, "ws": "min"|"wild", "eol": "lf"|"crlf"|"mixed"|"cr"|"mixed3", "final_nl": [bool per def], "route": "file"|"raw"}
+  {"seed": int, "ws": "min"|"wild", "eol": "lf"|"crlf"|"mixed"|"cr"|"mixed3", "final_nl": [bool per def], "route": "file"|"raw",
+   "cwd": "abs" (default: the working directory is unrelated, every path is given absolute) | "parent-abs" | "parent-rel" (the process
+   runs in the directory that holds the root namespace directories and names them relative: `ns`) | "sibling-rel" (`../ns`) | "deep-rel"
+   (`../../ns`)}: a reported path - of an error or of a @print - is interpreted the way its receiver would, i.e. relative to the working
+   directory of that moment, and must denote the very file the fault was planted in
   eol "cr" = bare CR (classic Mac), "mixed3" = LF / CR LF / CR at random; both only with route "file" (the library reads files in
   universal-newlines mode and so accepts them; with route "raw" the grammar itself sees the characters and knows only LF and CR LF)
 
@@ -39,8 +47,10 @@ Oracles (independent of the Lean model and of the library's algorithm):
 from __future__ import annotations
 
 import copy
+import fractions
 import os
 import random
+import re
 import shutil
 import tempfile
 import typing
@@ -161,6 +171,8 @@ def printed_literal(canonical: str, brks: typing.List[str], deco: dict) -> str:
 
 
 def def_relpath(d: dict) -> str:
+    if d.get("badfile"):
+        return d["badfile"]["root"] + "/" + d["badfile"]["rel"]
     port = "%d." % d["port"] if d.get("port") is not None else ""  # fixed port-ID: `<port>.<Name>.1.0.dsdl`
     return "ns/" + (d["dir"] + "/" if d.get("dir") else "") + port + d["name"] + ".1.0.dsdl"
 
@@ -244,6 +256,7 @@ def strip_docs(comp: dict) -> dict:
 
 
 UNLOADABLE = "unloadable-file"
+FILE_NAME = "file-name"
 
 PHYSICAL = [True]  # line numbers the oracle uses: physical lines of the text (a raw line break inside a string literal counts)
 
@@ -366,7 +379,7 @@ def oracle_c17_numbered(v: dict, impl: dict) -> typing.Optional[str]:
     faults = faults_of(v)
     if v["mode"] == "files":
         reach = reachable(v, 0)
-        faults = [f for f in faults if f[0] in reach]
+        faults = [f for f in faults if f[0] in reach or f[3] == FILE_NAME]  # a malformed file name is met when the directories are scanned
     else:
         reach = set(range(len(v["defs"])))
     res = impl.get("res")
@@ -388,6 +401,9 @@ def oracle_c17_numbered(v: dict, impl: dict) -> typing.Optional[str]:
                         if di == f and any(u[0] in (l.get("deps") or []) for u in unl) and ln in (None, lineno(d, i)):
                             return "unloadable-dependency-path: %s cannot be loaded, the error names the referring file %s%s" % (
                                 sorted({_fname(v, x[0]) for x in unl}), _fname(v, f), "" if ln is None else " (line %d, the reference)" % ln)
+            if f == -1:
+                return "wrong-path: the error's path %r, taken relative to the working directory %s, denotes no file of the namespaces; the fault is in %s" % (
+                    impl.get("soft_path"), impl.get("soft_cwd"), sorted({_fname(v, x[0]) for x in faults}))
             return "wrong-path: error attributed to %s, the fault is in %s" % (_fname(v, f), sorted({_fname(v, x[0]) for x in faults}))
         okl = {x[1] for x in here} | ({None} if any(x[2] == "final" for x in here) else set())
         if any(x[3] == UNLOADABLE for x in here):
@@ -437,6 +453,8 @@ def oracle_c17_numbered(v: dict, impl: dict) -> typing.Optional[str]:
 
 def _fname(v, i):
     try:
+        if not isinstance(i, int) or i < 0:
+            return "<no file of the case>"
         return def_relpath(v["defs"][i])
     except (IndexError, TypeError):
         return str(i)
@@ -482,9 +500,17 @@ def canonical_text(pydsdl, t) -> str:
 
 def read_variant(pydsdl, v: dict, want_types: bool = False):
     """Render, write to a temporary namespace directory, read with the public API; returns (outcome, types by index)."""
-    tmp = Path(tempfile.mkdtemp(prefix="vtext"))
+    tmp = Path(tempfile.mkdtemp(prefix="vtext")).resolve()
     prints: typing.List[list] = []
     by_path = {}
+    old_cwd = os.getcwd()
+    cwd_mode = v["deco"].get("cwd") or "abs"
+    workdir = {"parent-abs": tmp, "parent-rel": tmp, "sibling-rel": tmp / "cwd_here", "deep-rel": tmp / "cwd_here" / "below"}.get(cwd_mode)
+
+    def spell(p: Path) -> Path:
+        """The way the caller names a directory / file: absolute, or relative to the working directory."""
+        return Path(os.path.relpath(str(p), str(workdir))) if cwd_mode.endswith("-rel") and workdir is not None else p
+
     try:
         for i, d in enumerate(v["defs"]):
             text, _ = render_def(d, v["deco"], i)
@@ -497,7 +523,23 @@ def read_variant(pydsdl, v: dict, want_types: bool = False):
                     f.write(text)
             by_path[str(p.resolve())] = i
             by_path[os.path.abspath(str(p))] = i
+            if d.get("badfile") and d["badfile"]["why"] == "dotted-directory":
+                q = p.parent
+                while q != tmp and "." not in q.name:
+                    q = q.parent
+                if q != tmp:
+                    by_path[str(q.resolve())] = i  # naming the offending directory itself is as good as naming the file in it
         (tmp / "ns").mkdir(exist_ok=True)
+        lookup = []
+        if any(d.get("badfile") and d["badfile"]["root"] == "lib" for d in v["defs"]):
+            # a second root namespace that is only looked into for dependencies (it holds a well-formed definition as well)
+            (tmp / "lib").mkdir(exist_ok=True)
+            with open(tmp / "lib" / "Dep.1.0.dsdl", "w", encoding="utf8") as f:
+                f.write("uint8 x\n@sealed\n")
+            lookup = [spell(tmp / "lib")]
+        if workdir is not None:
+            workdir.mkdir(parents=True, exist_ok=True)
+            os.chdir(workdir)
 
         def idx_of(path) -> int:
             try:
@@ -519,9 +561,9 @@ def read_variant(pydsdl, v: dict, want_types: bool = False):
                 mod = None
         try:
             if v["mode"] == "files":
-                direct, _tr = pydsdl.read_files([tmp / def_relpath(v["defs"][0])], [tmp / "ns"], print_output_handler=handler)
+                direct, _tr = pydsdl.read_files([spell(tmp / def_relpath(v["defs"][0]))], [spell(tmp / "ns")], lookup, print_output_handler=handler)
             else:
-                direct = pydsdl.read_namespace(tmp / "ns", [], print_output_handler=handler)
+                direct = pydsdl.read_namespace(spell(tmp / "ns"), lookup, print_output_handler=handler)
         finally:
             if mod is not None:
                 try:
@@ -535,8 +577,10 @@ def read_variant(pydsdl, v: dict, want_types: bool = False):
             out["res"] = "foreign:unknown-type-in-result"
         return out, (types if want_types else None)
     except pydsdl.InvalidDefinitionError as ex:
+        shown = str(ex.path).replace(str(tmp), "<tmp>") if ex.path else None
         return {"res": "invalid", "file": idx_of(ex.path) if ex.path else None, "line": ex.line, "prints": prints,
-                "soft_cls": type(ex).__name__, "soft_msg": str(ex.text)[:120]}, None
+                "soft_cls": type(ex).__name__, "soft_msg": str(ex.text)[:120], "soft_path": shown,
+                "soft_cwd": os.getcwd().replace(str(tmp), "<tmp>") if workdir is not None else "(unrelated)"}, None
     except pydsdl.InternalError as ex:
         out = {"res": "internal", "prints": prints, "soft_msg": str(ex)[:200]}
         if getattr(ex, "path", None):
@@ -545,6 +589,7 @@ def read_variant(pydsdl, v: dict, want_types: bool = False):
     except Exception as ex:  # pylint: disable=broad-except
         return {"res": "foreign:" + type(ex).__name__, "prints": prints, "soft_msg": str(ex)[:200]}, None
     finally:
+        os.chdir(old_cwd)
         shutil.rmtree(tmp, ignore_errors=True)
 
 
@@ -636,6 +681,160 @@ def mk_line(toks=None, s=None, refs=None, deps=None, offs=False, fault=None, bad
     return {"toks": toks, "s": s, "refs": refs or [], "deps": deps or [], "offs": offs, "fault": fault, "bad": bad, "c": c, "lead": lead}
 
 
+# ------------------------------------------------------------------------------------------------- numeric literals
+#
+# Every spelling of a number the grammar admits: integer literals in base 10 / 16 / 2 / 8 (prefix in either letter case, hexadecimal
+# digits in either case, leading zeros behind the prefix, single underscores between digits and behind the prefix), real literals in
+# point notation (`1.5`, `.5`, `5.`, `007.50`) and in exponent notation (`1e3`, `1E+3`, `2.5e-1`, `1_0e-0_2`, `.5e3`, `5.e-3`; exponents
+# with either sign, leading zeros, from -4000 to +3000).  The value of a literal is computed HERE, from the digits the generator
+# chose, in exact integer / rational arithmetic (`real_value`) - never by handing the text to a number parser - and the expected value
+# of every constant, @print, @assert, array capacity and @extent that is written with such literals is derived from it.
+
+FLOAT_MAX = {16: fractions.Fraction((2 ** 11 - 1) * 2 ** 5), 32: fractions.Fraction((2 ** 24 - 1) * 2 ** 104), 64: fractions.Fraction((2 ** 53 - 1) * 2 ** 971)}
+# KEPT OUT of the generator (reported to the coordinator): numbers whose numerator or denominator has more than 4300 decimal digits.
+# `float64 X = 1e-5000` is a valid constant and is read, but str(constant) - the canonical rendering - raises a bare ValueError
+# ("Exceeds the limit (4300 digits) for integer string conversion"), and `@print 1e-5000` fails with InternalError for the same
+# reason: the interpreter's limit on int -> str conversions (sys.set_int_max_str_digits).  Exponents stay within -4000 .. +3000.
+MAX_DIGITS = 4100
+
+
+def frac_str(v) -> str:
+    """The normalised text of an exact rational: `p` or `p/q` in lowest terms."""
+    v = fractions.Fraction(v)
+    return "%d" % v.numerator if v.denominator == 1 else "%d/%d" % (v.numerator, v.denominator)
+
+
+def sprinkle(rng, digits: str, p: float = 0.3) -> str:
+    """Single underscores between digits (digit separators), at random."""
+    if len(digits) < 2 or rng.random() >= p:
+        return digits
+    out = digits[0]
+    for ch in digits[1:]:
+        out += ("_" if rng.random() < 0.35 else "") + ch
+    return out
+
+
+def real_value(ip: str, fp: typing.Optional[str], exp: typing.Optional[int]) -> fractions.Fraction:
+    """The number a real literal denotes, digit by digit: integer part `ip`, fractional digits `fp`, power of ten `exp`."""
+    m = 0
+    for ch in ip + (fp or ""):
+        m = m * 10 + "0123456789".index(ch)
+    e = (exp or 0) - len(fp or "")
+    return fractions.Fraction(m * 10 ** e) if e >= 0 else fractions.Fraction(m, 10 ** (-e))
+
+
+def real_text(rng, ip: str, fp: typing.Optional[str], exp: typing.Optional[int]) -> str:
+    """ip: digits of the integer part ("" = none), fp: fractional digits (None = no point, "" = `5.`), exp: None = point notation."""
+    assert ip or fp, (ip, fp, exp)
+    assert fp is not None or exp is not None, (ip, fp, exp)  # digits alone would be an integer literal
+    out = sprinkle(rng, ip) + ("" if fp is None else "." + sprinkle(rng, fp))
+    if exp is None:
+        return out
+    sign = "-" if exp < 0 else rng.choice(["", "", "+"]) if exp > 0 else rng.choice(["", "+", "-"])
+    digits = "0" * rng.choice([0, 0, 0, 1, 2]) + str(abs(exp))
+    return out + rng.choice("eeE") + sign + sprinkle(rng, digits, 0.15)
+
+
+def spell_real(rng, m: int, e: int, written: typing.Optional[int] = None, notation: str = "any") -> typing.Tuple[str, fractions.Fraction]:
+    """A real literal that denotes m * 10**e (m >= 0) and the value its digits denote (recomputed from the chosen digits).
+    `written`: the exponent to write (default: somewhere near e); notation "point" = no exponent part."""
+    assert m >= 0
+    if notation == "point" or (notation == "any" and -12 <= e <= 6 and rng.random() < 0.3):
+        x: typing.Optional[int] = None
+        d = e
+    else:
+        x = written if written is not None else e + rng.choice([0, 0, 0, 1, -1, 2, -2, 3, -3, 5, -6, len(str(m)) - 1, len(str(m)), -rng.randint(0, 9)])
+        d = e - x
+    if d >= 0:
+        ip, fp = str(m) + "0" * d, None
+        if x is None or rng.random() < 0.3:
+            fp = "0" * rng.choice([0, 1, 1, 2])  # `120.` / `120.0`
+    else:
+        s = str(m).rjust(-d + 1, "0")
+        ip, fp = s[:d], s[d:]
+        if rng.random() < 0.5:
+            fp = fp.rstrip("0")  # `1.50` -> `1.5`, `2.0` -> `2.`
+        if rng.random() < 0.2:
+            fp += "0" * rng.choice([1, 2])
+        if ip == "0" and fp and rng.random() < 0.3:
+            ip = ""  # `.5`
+    if ip and rng.random() < 0.12:
+        ip = "0" * rng.choice([1, 2]) + ip  # `007.5`, `01e3`: leading zeros are digits of a real literal
+    if fp is None and x is None:
+        fp = ""
+    text = real_text(rng, ip, fp, x)
+    v = real_value(ip, fp, x)
+    assert v == (fractions.Fraction(m * 10 ** e) if e >= 0 else fractions.Fraction(m, 10 ** (-e))), (m, e, text)
+    return text, v
+
+
+def gen_mantissa(rng) -> int:
+    r = rng.random()
+    if r < 0.06:
+        return 0
+    if r < 0.45:
+        return rng.randint(1, 99)
+    if r < 0.85:
+        return rng.randint(1, 10 ** rng.randint(3, 10))
+    return rng.randint(10 ** 16, 10 ** rng.randint(17, 25))  # more digits than binary64 holds
+
+
+def gen_exponent(rng) -> int:
+    r = rng.random()
+    if r < 0.5:
+        return rng.randint(-6, 6)
+    if r < 0.75:
+        return rng.randint(-45, 30)
+    if r < 0.92:
+        return rng.choice([rng.randint(-330, 290), -323, -324, -325, -308, -307])
+    return -rng.choice([331, 400, 1000, 1074, 1075, 4000, rng.randint(331, 4000)])  # far below the smallest binary64 subnormal: still not zero
+
+
+def int_literal(rng, n: int) -> str:
+    """The non-negative integer n as an integer literal of a random base and style."""
+    r = rng.random()
+    if r < 0.4 or n < 0:
+        if n == 0:
+            return rng.choice(["0", "0", "00", "0_0", "000"])
+        return sprinkle(rng, str(n), 0.25)
+    if r < 0.65 or (r < 0.8 and n >= 1 << 24):
+        pre, digits = "0x", "%x" % n
+        style = rng.choice(["l", "l", "u", "m"])
+        digits = digits.upper() if style == "u" else "".join(c.upper() if rng.random() < 0.5 else c for c in digits) if style == "m" else digits
+    elif r < 0.8:
+        pre, digits = "0b", bin(n)[2:]
+    else:
+        pre, digits = "0o", oct(n)[2:]
+    if rng.random() < 0.25:
+        pre = pre.upper()
+    digits = "0" * rng.choice([0, 0, 0, 1, 2]) + digits
+    return pre + ("_" if rng.random() < 0.12 else "") + sprinkle(rng, digits, 0.25)
+
+
+def power_of_ten(rng, k: int) -> str:
+    """10**k (k >= 0) as an integer or a real literal."""
+    r = rng.random()
+    if r < 0.4 or k > 30:
+        return real_text(rng, "1", None if rng.random() < 0.8 else "0", k)
+    if r < 0.7:
+        return sprinkle(rng, "1" + "0" * k, 0.2)
+    return spell_real(rng, 1, k)[0]
+
+
+def int_by_reals(rng, n: int) -> list:
+    """Tokens of an expression with real literals whose exact value is the non-negative integer n."""
+    r = rng.random()
+    if r < 0.45:
+        return T(spell_real(rng, n, 0)[0])  # 120 as `1.2e2`, `12000e-2`, `120.`, `0.12E+3`
+    k = rng.choice([1, 1, 2, 3, 6, 9])
+    lit, v = spell_real(rng, n, -k, notation=rng.choice(["any", "any", "exp"]))  # n / 10**k, e.g. `3e-1`
+    assert v * 10 ** k == n
+    if r < 0.8:
+        a, b = T(lit), T(power_of_ten(rng, k))
+        return cat(a, "o", T("*"), "o", b) if rng.random() < 0.7 else cat(b, "o", T("*"), "o", a)  # `3e-1 * 10`
+    return cat(T(lit), "o", T("/"), "o", T(spell_real(rng, 1, -k, notation="exp")[0]))  # `3e-1 / 1e-1`
+
+
 INT_EXPRS = [  # (tokens, value)
     (lambda n: T(str(n))),
     (lambda n: T(hex(n))),
@@ -648,6 +847,16 @@ INT_EXPRS = [  # (tokens, value)
 ]
 
 
+def int_spelling(rng, n: int) -> list:
+    """Tokens of a constant expression without identifiers whose value is the non-negative integer n."""
+    r = rng.random()
+    if r < 0.4:
+        return rng.choice(INT_EXPRS)(n)
+    if r < 0.7:
+        return T(int_literal(rng, n))
+    return int_by_reals(rng, n)
+
+
 def int_expr(rng, n: int, consts: dict):
     """An expression text evaluating to the non-negative integer n; may refer to an earlier constant."""
     usable = [(k, v) for k, v in consts.items() if isinstance(v, int) and 0 <= v <= n]
@@ -655,8 +864,100 @@ def int_expr(rng, n: int, consts: dict):
         k, v = rng.choice(usable)
         if v == n and rng.random() < 0.5:
             return T(k), [k]
-        return T(k, "o", "+", "o", str(n - v)), [k]
-    return rng.choice(INT_EXPRS)(n), []
+        return cat(T(k, "o", "+", "o"), int_spelling(rng, n - v) if rng.random() < 0.3 else T(str(n - v))), [k]
+    return int_spelling(rng, n), []
+
+
+def gen_real_literal(rng, max_abs=None) -> typing.Tuple[str, fractions.Fraction]:
+    for _ in range(20):
+        text, v = spell_real(rng, gen_mantissa(rng), gen_exponent(rng))
+        if max_abs is None or v <= max_abs:
+            return text, v
+    return spell_real(rng, 15, -1)
+
+
+def gen_real_expr(rng, max_abs=None, signed: bool = True) -> typing.Tuple[list, fractions.Fraction, str]:
+    """(tokens, exact value, form) of a constant expression written with real literals; |value| <= max_abs."""
+    for _ in range(30):
+        r = rng.random()
+        if r < 0.45:
+            lit, v = gen_real_literal(rng)
+            toks, form = T(lit), "literal"
+        elif r < 0.55 and signed:
+            lit, v = gen_real_literal(rng)
+            toks, v, form = T("-", "o", lit), -v, "negated"
+        elif r < 0.7:
+            (a, va), (b, vb) = spell_real(rng, gen_mantissa(rng), rng.randint(-12, 6)), spell_real(rng, gen_mantissa(rng), rng.randint(-12, 6))
+            op = rng.choice(["+", "*", "-"] if signed or va >= vb else ["+", "*"])
+            toks, v, form = T(a, "o", op, "o", b), (va + vb if op == "+" else va * vb if op == "*" else va - vb), "sum-product"
+        elif r < 0.77:
+            (a, va), (b, vb) = gen_real_literal(rng, 10 ** 30), spell_real(rng, rng.randint(1, 999), rng.randint(-12, 6))
+            toks, v, form = T(a, "o", "/", "o", b), va / vb, "quotient"
+        elif r < 0.9:
+            # huge and tiny factors that compensate each other: `1e400 / 1e399`, `2.5e-2000 * 4e2001`
+            big = rng.choice([309, 400, 1000, 3000, rng.randint(309, 3000)])
+            m1, m2, d = rng.randint(1, 999), rng.randint(1, 999), rng.randint(-6, 6)
+            if rng.random() < 0.5:
+                (a, va), (b, vb) = spell_real(rng, m1, big, notation="exp"), spell_real(rng, m2, big + d, notation="exp")
+                toks, v = T(a, "o", "/", "o", b), va / vb
+            else:
+                (a, va), (b, vb) = spell_real(rng, m1, big, notation="exp"), spell_real(rng, m2, -big + d, notation="exp")
+                if rng.random() < 0.5:
+                    a, b = b, a
+                toks, v = T(a, "o", "*", "o", b), va * vb
+            form = "huge-compensated"
+        else:
+            k = rng.choice([1, 2, 3, 6])
+            lit, va = gen_real_literal(rng)
+            toks, v, form = cat(T(lit), "o", T("*"), "o", T(power_of_ten(rng, k))), va * 10 ** k, "scaled"
+        if max_abs is not None and abs(v) > max_abs:
+            continue
+        if max(len(str(v.numerator)), len(str(v.denominator))) > MAX_DIGITS:
+            continue
+        return toks, v, form
+    return T("1.5"), fractions.Fraction(3, 2), "literal"
+
+
+def exact_ratio_tokens(v: fractions.Fraction) -> list:
+    """v >= 0 written with plain decimal integers only: `p` or `p / q`."""
+    return T(str(v.numerator)) if v.denominator == 1 else T(str(v.numerator), "o", "/", "o", str(v.denominator))
+
+
+LIT_REAL = re.compile(r"^(?:[0-9][0-9_]*)?(?:\.(?:[0-9][0-9_]*)?)?(?:[eE]([+-]?)([0-9][0-9_]*))?$")
+LIT_INT = re.compile(r"^(?:0[xX][0-9a-fA-F_]+|0[bB][01_]+|0[oO][0-7_]+|[0-9][0-9_]*)$")
+
+
+def literal_classes(tok: str) -> typing.List[str]:
+    """Feature names of a token that is a numeric literal (nothing for any other token)."""
+    out = []
+    if LIT_INT.match(tok):
+        base = {"x": "hex", "b": "bin", "o": "oct"}.get(tok[1:2].lower(), "dec") if len(tok) > 1 else "dec"
+        out.append("int-literal:" + base)
+        if "_" in tok:
+            out.append("int-literal:underscore")
+        if tok[1:2] in ("X", "B", "O"):
+            out.append("int-literal:upper-case-prefix")
+        return out
+    m = LIT_REAL.match(tok) if tok and tok[0] in "0123456789." and tok != "." else None
+    if m is None or ("." not in tok and m.group(2) is None):
+        return out
+    if m.group(2) is None:
+        out.append("real-literal:point")
+    else:
+        e = int(m.group(2).replace("_", "")) * (-1 if m.group(1) == "-" else 1)
+        mag = "0" if e == 0 else "1..9" if abs(e) < 10 else "10..45" if abs(e) <= 45 else "46..308" if abs(e) <= 308 else "309..323" if abs(e) <= 323 else "324.."
+        out.append("real-literal:exponent:%s%s" % ("-" if m.group(1) == "-" else "+" if e else "", mag))
+        if m.group(1) == "+":
+            out.append("real-literal:explicit-plus")
+    if "_" in tok:
+        out.append("real-literal:underscore")
+    if tok.startswith("."):
+        out.append("real-literal:no-integer-part")
+    if tok.endswith(".") or "." in tok and tok[tok.index(".") + 1: tok.index(".") + 2] in ("e", "E"):
+        out.append("real-literal:no-fraction-digits")
+    if len(tok) > 1 and tok[0] == "0" and tok[1] in "0123456789_":
+        out.append("real-literal:leading-zeros")
+    return out
 
 
 def gen_prim(rng):
@@ -734,6 +1035,18 @@ def gen_const(rng, ctx, name: str):
         e, val = rng.choice([(T("1.5"), "3/2"), (T("1", "o", "/", "o", "3"), "1/3"), (T("1e3"), "1000"), (T("-", "o", "2.5e-1"), "-1/4"),
                              (T("0.0"), "0"), (T("-", "o", "7"), "-7"), (T("1_0.2_5"), "41/4")])
         pv = None
+        if rng.random() < 0.8:
+            # the number is written with real literals of every spelling; its exact value is computed by the generator
+            r = rng.random()
+            if r < 0.1:
+                # the largest finite value of the type, exactly, written as a real literal
+                fv = FLOAT_MAX[n] * rng.choice([1, 1, -1])
+                lit, v0 = spell_real(rng, int(abs(fv)), 0, notation="exp")
+                e = T(lit) if fv > 0 else T("-", "o", lit)
+                assert v0 == abs(fv)
+            else:
+                e, fv, _form = gen_real_expr(rng, FLOAT_MAX[n])
+            val = frac_str(fv)
     elif k < 0.45:
         ttoks, norm = rng.choice([(T("uint8"), "saturated uint8"), (T("truncated", "r", "uint8"), "truncated uint8")])
         ch = rng.choice("aZ09 #~")
@@ -822,7 +1135,10 @@ def gen_schema(rng, ctx, deps_to_use: list, union: bool, deprecated_here: bool) 
                 lines.append(ln)
             elif r < 0.12:
                 lines.append(mk_line(T("@print"), ["dir", "print", None, ""]))
-            elif r < 0.3 and ctx["consts"]:
+            elif r < 0.3:
+                e, fv, _form = gen_real_expr(rng)
+                lines.append(mk_line(cat(T("@print"), "r", e), ["dir", "print", ["o"], frac_str(fv)]))
+            elif r < 0.45 and ctx["consts"]:
                 cn, cv = rng.choice(sorted(ctx["consts"].items()))
                 lines.append(mk_line(T("@print", "r", cn, "o", "*", "o", "2"), ["dir", "print", ["r", cv * 2], str(cv * 2)], refs=[cn]))
             else:
@@ -846,6 +1162,11 @@ def gen_schema(rng, ctx, deps_to_use: list, union: bool, deprecated_here: bool) 
             elif rng.random() < 0.3 and ctx["consts"]:
                 cn, cv = rng.choice(sorted(ctx["consts"].items()))
                 lines.append(mk_line(T("@assert", "r", cn, "o", "==", "o", str(cv)), ["dir", "assert", ["b", True], ""], refs=[cn]))
+            elif rng.random() < 0.4:
+                # a number written with real literals equals its exact value written as a ratio of decimal integers
+                e, fv, _form = gen_real_expr(rng, signed=False)
+                toks = cat(e, "o", T("=="), "o", exact_ratio_tokens(fv)) if rng.random() < 0.7 else cat(exact_ratio_tokens(fv), "o", T("=="), "o", e)
+                lines.append(mk_line(cat(T("@assert"), "r", toks), ["dir", "assert", ["b", True], ""]))
             else:
                 lines.append(mk_line(cat(T("@assert"), "r", rng.choice(ASSERT_EXPRS)), ["dir", "assert", ["b", True], ""]))
     first_attr = next((i for i, l in enumerate(lines) if l["s"][0] == "attr"), len(lines))
@@ -866,7 +1187,8 @@ def gen_schema(rng, ctx, deps_to_use: list, union: bool, deprecated_here: bool) 
         size = bound
     else:
         ext = bound + 8 * rng.choice([0, 0, 1, 5, 100])
-        toks = T(str(ext)) if rng.random() < 0.6 else T(str(ext // 8), "o", "*", "o", "8")
+        r = rng.random()
+        toks = T(str(ext)) if r < 0.5 else T(str(ext // 8), "o", "*", "o", "8") if r < 0.75 else int_spelling(rng, ext)
         lines.insert(rng.randint(last_attr + 1, len(lines)), mk_line(cat(T("@extent"), "r", toks), ["dir", "extent", ["r", ext], ""]))
         size = ext + 32
     if union and fixed and rng.random() < 0.3:
@@ -908,6 +1230,9 @@ def gen_deco(rng, n: int, prop: str = "C03") -> dict:
         deco["eol"] = rng.choice(["crlf", "crlf", "mixed", "cr", "mixed3", "mixed3"])
         if deco["eol"] in ("cr", "mixed3"):
             deco["route"] = "file"
+    if prop == "C17" and rng.random() < 0.45:
+        # where the process runs and how it names the directories: a reported path must lead to the faulty file from there
+        deco["cwd"] = rng.choice(["parent-abs", "parent-rel", "parent-rel", "sibling-rel", "sibling-rel", "deep-rel"])
     return deco
 
 
@@ -1047,6 +1372,15 @@ COMMIT_FAULTS = [  # raised by the Field/Constant constructor, i.e. when the que
 ]
 
 
+# malformed definition FILE NAMES: (kind, path below the root namespace directory)
+FILE_NAME_FAULTS = [
+    ("bad-version", "Zq.1.x.dsdl"), ("bad-version", "Zq.x.0.dsdl"), ("bad-version", "Zq..0.dsdl"), ("bad-version", "Zq.+1.0.dsdl"), ("bad-version", "Zq.1_0.0.dsdl"),
+    ("bad-version", "Zq.1.0x1.dsdl"), ("bad-version", "Zq. 1.0.dsdl"), ("bad-version", "Zq.1.\uff11.dsdl"),
+    ("bad-port-id", "abc.Zq.1.0.dsdl"), ("bad-port-id", "0x10.Zq.1.0.dsdl"), ("bad-port-id", "-1.Zq.1.0.dsdl"), ("bad-port-id", "ns.Zq.1.0.dsdl"),
+    ("component-count", "Zq.dsdl"), ("component-count", "Zq.1.dsdl"), ("component-count", "a.b.Zq.1.0.dsdl"), ("component-count", "1.2.3.Zq.1.0.dsdl"),
+    ("dotted-directory", "not.good/Zq.1.0.dsdl"), ("dotted-directory", "v1.2/inner/Zq.1.0.dsdl"), ("dotted-directory", "x./Zq.1.0.dsdl"),
+]
+
 # Kept out of the generator (GENUINE DEFECTS of the unchanged pydsdl, reported to the coordinator):
 #   * a symbolic link that points to itself (or a longer loop) under a definition's file name, e.g. ns/Zeta.1.0.dsdl -> Zeta.1.0.dsdl:
 #     read_namespace / read_files let a bare RuntimeError("Symlink loop from ...") of Path.resolve() escape (no pydsdl error, no path);
@@ -1157,7 +1491,22 @@ def inject_fault(rng, case: dict, avoid: typing.Optional[set] = None) -> typing.
                        "attr-after-extent", "dup-marker", "commit", "commit", "commit", "commit-composite-const", "union-offset", "dup-name", "union-arity",
                        "pad-in-union", "missing-mode", "extent-small", "extent-odd", "bad-aggregation", "deprecated-dep",
                        "port-unregulated", "port-unregulated", "port-range", "type-name", "name-length",
-                       "multiline-fault", "unloadable", "unloadable"])
+                       "multiline-fault", "unloadable", "unloadable", "file-name", "file-name"])
+    if kind == "file-name":
+        # a file with a malformed NAME, in the namespace that is read or in a root namespace that is only looked into, at any depth
+        # of nested namespace directories; the fault is met when the directories are scanned (one per case: which of two is met
+        # first is not specified)
+        if any(x.get("badfile") for x in defs):
+            return None
+        why, rel = rng.choice(FILE_NAME_FAULTS)
+        sub = rng.choice(["", "", "sub/", "nested/", "deep/er/"])
+        defs.append({"name": "Zq", "dir": "", "final_fault": True, "dfault": FILE_NAME, "kind": "message", "deprecated": False,
+                     "lines": [mk_line(T("@sealed"), ["dir", "sealed", None, ""])],
+                     "badfile": {"root": rng.choice(["ns", "ns", "lib"]), "rel": sub + rel, "why": why}})
+        if avoid is not None:
+            avoid.discard(f)
+            avoid.add(len(defs) - 1)
+        return kind
     if kind == "unloadable":
         # a file that cannot be loaded at all: as a target, and - mostly - as a dependency first reached through a reference
         # (depth 1..3); kept out: see KEPT_OUT_UNLOADABLE
@@ -1371,6 +1720,10 @@ def inject_fault(rng, case: dict, avoid: typing.Optional[set] = None) -> typing.
     return kind
 
 
+def bad_file_index(case: dict) -> typing.Optional[int]:
+    return next((i for i, d in enumerate(case["defs"]) if d.get("badfile")), None)
+
+
 def droppable(d: dict, i: int) -> bool:
     """May statement line i of definition d be deleted while shrinking?  Only if the rest stays exactly as valid as it was:
     serialization mode / @union / @deprecated / marker statements stay, a constant that is referred to stays, a union keeps
@@ -1457,6 +1810,10 @@ class TextSuite(common.Suite):
     def model_case(self, case):
         # a definition whose file cannot be loaded: the read fails before the first line is seen, with the definition's own path and
         # no line - for the reader model that is a definition without lines whose completion fails
+        if bad_file_index(case) is not None:
+            # a malformed file name fails when the directories are scanned: its own path, no line, nothing read or delivered yet -
+            # for the reader model that is a namespace of one definition without lines whose completion fails
+            return {"id": case.get("id"), "targets": [0], "defs": [{"final_fault": True, "lines": []}]}
         return {"id": case.get("id"), "targets": target_order(case),
                 "defs": [{"final_fault": True, "lines": []} if d.get("unload") else
                          {"final_fault": bool(d.get("final_fault")), "lines": render_def(d, case["deco"], i)[1]} for i, d in enumerate(case["defs"])]}
@@ -1469,6 +1826,8 @@ class TextSuite(common.Suite):
         if "types" in b:
             b["types"] = sorted(b["types"], key=lambda x: x[0])
         # (an unloadable definition file is an InvalidDefinitionError naming the file since /repo 6ded0dc: no mapping needed)
+        if bad_file_index(case) is not None and b.get("file") == 0:
+            b["file"] = bad_file_index(case)  # the model was given that file alone (see model_case)
         if a == b:
             return None
         for k in KEYS:
@@ -1526,13 +1885,34 @@ class TextSuite(common.Suite):
             c = copy.deepcopy(case)
             c["deco"]["final_nl"] = [False] * len(case["defs"])
             yield c
-        # drop the last definition when nothing refers to it
-        n = len(case["defs"])
-        if n > 1 and not any((n - 1) in (l.get("deps") or []) for d in case["defs"] for l in d["lines"]):
+        if case["deco"].get("cwd"):
             c = copy.deepcopy(case)
-            c["defs"].pop()
+            del c["deco"]["cwd"]
+            yield c
+        bf = bad_file_index(case)
+        if bf is not None and "/" in case["defs"][bf]["badfile"]["rel"] and case["defs"][bf]["badfile"]["why"] != "dotted-directory":
+            c = copy.deepcopy(case)
+            c["defs"][bf]["badfile"]["rel"] = case["defs"][bf]["badfile"]["rel"].rsplit("/", 1)[1]
+            yield c
+        # drop a definition that nothing refers to (the last one first; the later ones move up)
+        n = len(case["defs"])
+        for k in reversed(range(1, n)):
+            if any(k in (l.get("deps") or []) for d in case["defs"] for l in d["lines"]):
+                continue
+            c = copy.deepcopy(case)
+            del c["defs"][k]
+            for d in c["defs"]:
+                for l in d["lines"]:
+                    if l.get("deps"):
+                        l["deps"] = [j - 1 if j > k else j for j in l["deps"]]
+            fn = c["deco"].get("final_nl")
+            if fn and len(fn) == n:
+                del fn[k]
             if c.get("alt"):
-                c["alt"]["inserts"] = [x for x in c["alt"]["inserts"] if x[0] < n - 1]
+                c["alt"]["inserts"] = [[x[0] - 1 if x[0] > k else x[0]] + list(x[1:]) for x in c["alt"]["inserts"] if x[0] != k]
+                afn = c["alt"]["deco"].get("final_nl")
+                if afn and len(afn) == n:
+                    del afn[k]
             yield c
         # a regulated fixed port-ID that is no fault can go
         for di, d in enumerate(case["defs"]):
@@ -1567,6 +1947,14 @@ class TextSuite(common.Suite):
         yield "eol:" + case["deco"]["eol"]
         yield "ws:" + case["deco"]["ws"]
         yield "route:" + str(case["deco"].get("route"))
+        yield "cwd:" + str(case["deco"].get("cwd") or "abs")
+        bf = bad_file_index(case)
+        if bf is not None:
+            b = case["defs"][bf]["badfile"]
+            yield "file-name-fault:%s:%s:%s" % (b["why"], "lookup-namespace" if b["root"] == "lib" else "read-namespace", "depth%d" % b["rel"].count("/"))
+            yield "file-name-fault-cwd:" + str(case["deco"].get("cwd") or "abs")
+        if faults_of(case) and impl.get("res") == "invalid":
+            yield "error-path-judged-from-cwd:" + str(case["deco"].get("cwd") or "abs")
         for k in case.get("faults") or []:
             yield "fault:" + k
         for di, d in enumerate(case["defs"]):
@@ -1601,6 +1989,14 @@ class TextSuite(common.Suite):
                 yield "ends-with-attribute"
             for l in d["lines"]:
                 s = l.get("s")
+                if s and not l.get("bad"):
+                    # numeric literals of the statement: spelling classes, and where literals of the real kind stand
+                    where = ("constant:" + s[3].split()[-1].rstrip("0123456789") if s[1] == "const" else "array-capacity") if s[0] == "attr" else "@" + s[1] if s[0] == "dir" else s[0]
+                    for tok, _sep in l.get("toks") or []:
+                        for cl in literal_classes(tok):
+                            yield cl
+                            if cl.startswith("real-literal:exponent:-") or cl == "real-literal:point":
+                                yield "real-literal-at:%s:%s" % (where, "negative-exponent" if "exponent" in cl else "point")
                 if s:
                     yield "stmt:" + (s[0] if s[0] != "dir" else "@" + s[1]) + (":" + s[1] if s[0] == "attr" else "")
                 elif line_is_empty(l):
